@@ -78,13 +78,15 @@ func printable(b []byte) string {
 // ------------------------------------------------------------------ memory bound
 
 // The memory oracle: the TotalAlloc delta of one decoder call must not exceed
-// MemA + MemB*len(input). Calibration (TestCalibrate, see calib_test.go): over
-// 200k valid encodings of generated values/types per decoder the largest
-// observed delta/len ratio and the largest delta on tiny inputs were measured;
-// MemB is 8x the largest ratio. MemA is 8x the largest delta seen on inputs
-// shorter than 16 bytes, raised to 16 MiB so that the msgpack library's own
-// capped chunking (it allocates at most 1 MB at a time for a declared
-// string/bin/ext length, whatever the header says) is not mistaken for
+// MemA + MemB*len(input). Calibration (TestCalibrate in calib_test.go, 200000
+// generated cases, i.e. 200000 valid encodings per decoder, run through the
+// worker): largest delta/len ratio on inputs of >= 16 bytes: json-value 1755,
+// msgpack-value 1818, json-type 267, json-implied 169, msgpack-implied 140 B/B;
+// largest delta on inputs shorter than 16 bytes: 19.8 KB (json-value). MemB =
+// 16 KiB/byte is 8 x 1818 rounded up to a power of two. 8 x 19.8 KB would give
+// MemA = 160 KiB; it is raised to 16 MiB so that the msgpack library's own
+// capped chunking (whatever a str/bin/ext header declares, it allocates at most
+// 1 MB at a time, about 1-4 MB per failing call) is not mistaken for
 // header-driven allocation. The constants are frozen here.
 const (
 	MemA = 16 << 20
